@@ -5,9 +5,10 @@
 #   2. the demonstration fails with the patch and passes without it;
 # then runs the quick check(s) against the patched copy and prints the verdicts.
 set -u
-ID=$1; shift
-OUT=/tmp/seed/$ID-out
-SCR=${VERIF_SCRATCH:-/var/tmp/verif-scratch}/seed-$ID-$$
+NAME=$1; shift
+OUT=/tmp/seed/$NAME-out
+ID=$(echo "$NAME" | sed 's/^R[0-9]*//')
+SCR=${VERIF_SCRATCH:-/var/tmp/verif-scratch}/seed-$NAME-$$
 mkdir -p "$SCR"
 rsync -a --exclude _build --exclude .git --exclude '_demo_build*' /repo/ "$SCR/clean/"
 rsync -a "$SCR/clean/" "$SCR/mut/"
